@@ -2,6 +2,8 @@ package main
 
 import (
 	"fmt"
+	"go/token"
+	"go/types"
 
 	"golang.org/x/tools/go/ssa"
 )
@@ -44,6 +46,42 @@ func checkC06(c *Ctx, w *World) {
 	c.floor("C06.loops", nl, 10)
 	recursionRules(c, p, scope, "C06")
 
+	// C06.copylock: "never leaves a lock held": a lock copied in the held state is held for ever, in the copy. No value of a
+	// type that contains a sync lock is copied — loaded as a whole, stored, passed or returned by value — anywhere in the package
+	{
+		nTypes, nCopies := 0, 0
+		seenT := map[string]bool{}
+		for _, fn := range p.Funcs {
+			if fn.Pkg == nil || fn.Pkg.Pkg.Name() != "grpcgcp" {
+				continue
+			}
+			eachInstr(fn, func(in ssa.Instruction) {
+				if fa, ok := in.(*ssa.FieldAddr); ok {
+					if t := fa.X.Type().Underlying().(*types.Pointer).Elem(); containsLock(t, 0) && !seenT[t.String()] {
+						seenT[t.String()] = true
+						nTypes++
+					}
+				}
+				v, isV := in.(ssa.Value)
+				if !isV || !containsLock(v.Type(), 0) {
+					return
+				}
+				switch x := in.(type) {
+				case *ssa.UnOp:
+					if x.Op != token.MUL {
+						return
+					}
+				case *ssa.Alloc, *ssa.Phi, *ssa.Extract:
+					return // storage of its own / merges of copies already reported
+				}
+				nCopies++
+				c.fail("C06.copylock", fmt.Sprintf("%s: %s", fname(fn), vstr(v)), p.ipos(in), "a value of type "+v.Type().String()+", which contains a lock, is copied: a lock copied while it is held stays held in the copy (every later user of the copy blocks for ever)")
+			})
+		}
+		c.check(nCopies == 0, "C06.copylock", "no lock is copied", p.pos(rrPos(p)), fmt.Sprintf("no value of the %d lock-containing struct types of the package is loaded, passed or returned by value", nTypes), fmt.Sprintf("%d copies of lock-containing values", nCopies))
+		c.floor("C06.copylock:types", nTypes, 3)
+	}
+
 	// C06.rr-isolated: the round-robin waiter blocks holding nothing and its select offers ctx.Done and the state signal.
 	rr := c.need(p, "grpcgcp", "(*gcpBalancer).getSubConnRoundRobin")
 	if rr != nil {
@@ -82,6 +120,39 @@ func checkC06(c *Ctx, w *World) {
 		c.check(len(may) == 0, "C06.rr-isolated", fname(rr)+": entry context", p.pos(rr.Pos()),
 			"never called with a lock held", fmt.Sprintf("may be entered holding %s (%v)", may, lf.MayWhy[rr]))
 	}
+}
+
+func rrPos(p *Prog) token.Pos {
+	for _, fn := range p.Funcs {
+		if fn.Pkg != nil && fn.Pkg.Pkg.Name() == "grpcgcp" {
+			return fn.Pos()
+		}
+	}
+	return token.NoPos
+}
+
+// containsLock: values of type t contain a sync.Mutex / RWMutex / Cond / WaitGroup / Once by value.
+func containsLock(t types.Type, d int) bool {
+	if d > 4 {
+		return false
+	}
+	if n, ok := t.(*types.Named); ok && n.Obj().Pkg() != nil && n.Obj().Pkg().Path() == "sync" {
+		switch n.Obj().Name() {
+		case "Mutex", "RWMutex", "Cond", "WaitGroup", "Once":
+			return true
+		}
+	}
+	switch u := t.Underlying().(type) {
+	case *types.Struct:
+		for i := 0; i < u.NumFields(); i++ {
+			if containsLock(u.Field(i).Type(), d+1) {
+				return true
+			}
+		}
+	case *types.Array:
+		return containsLock(u.Elem(), d+1)
+	}
+	return false
 }
 
 // isLoadOfLocalHolding: v is a value whose single definition is a load of the field (e.g. sigChan := scRef.stateSignal).
